@@ -29,7 +29,8 @@ META = {
                  "program replayed through the real generator and the parsed output compared element for element",
     "text": "TLC checks for every flat model of the family (all expression shapes of depth 2 over unary minus, + - * / ^, one- and "
             "two-argument calls, der, time, integer/real/Boolean literals; relational and logical operators; calls of arity 1-3; every "
-            "type x variability x literal/negative/expression start and value x fixed; declaration equations; when-equations with 0-2 "
+            "type x variability x literal/negative/expression start and value x fixed; variability combined with input/output/flow "
+            "prefixes on one declaration; declaration equations; when-equations with 0-2 "
             "elsewhen branches) that the generator's walk yields exactly XmlOf(flat), that no element is handed to two parents, and that "
             "reading the XML back (operator/apply by arity, as the XML parser back end does) returns the flat equations.  The real "
             "generator's output for each program is parsed with lxml and its components and equation elements are compared with the spec's.",
@@ -41,7 +42,7 @@ META = {
     "design_ref": "DESIGN.md section 6, C25",
 }
 
-CLASS_TAGS = {"expr", "bool", "comp", "when", "decl-eq", "elsewhen", "attr-expr", "bool-attr"}
+CLASS_TAGS = {"expr", "bool", "comp", "comp2", "when", "decl-eq", "elsewhen", "attr-expr", "bool-attr", "two-prefixes", "flow"}
 
 
 # ------------------------------------------------------------------------------------------------
@@ -53,7 +54,7 @@ def decl_text(v):
         mods.append("start = %s" % bm.rexpr(v["start"]))
     if v["fixed"] != "none":
         mods.append("fixed = %s" % v["fixed"])
-    return "  %s%s %s%s%s;" % ("" if v["pre"] == "none" else v["pre"] + " ", v["type"], v["key"],
+    return "  %s%s %s%s%s;" % ("".join(p + " " for p in v["pres"]), v["type"], v["key"],
                                "(%s)" % ", ".join(mods) if mods else "",
                                " = %s" % bm.rexpr(v["value"]) if v["value"]["k"] != "none" else "")
 
@@ -185,7 +186,7 @@ def observe(item):
     except Exception as e:
         obs["frontend"] = "front end raised %s: %s" % (type(e).__name__, str(e)[:200])
         return obs
-    want_vars = [(v["key"], v["type"], [] if v["pre"] == "none" else [v["pre"]]) for v in prog["vars"]]
+    want_vars = [(v["key"], v["type"], sorted(v["pres"])) for v in prog["vars"]]
     want_eqs = [eq_norm(q) for q in item["flateqs"]]
     if got_vars != want_vars or got_eqs != want_eqs:
         obs["frontend"] = "flat model differs from the program: vars %s, %d equations" % (got_vars, len(got_eqs))
@@ -358,7 +359,7 @@ def run(ctx):
             ctx.violation(rec, {"item": it})
         if not out["recs"] and "xml_text" in out["obs"] and it["prog"]["fam"] in ("expr", "when", "bool"):
             ctx.sample({"modelica": out["obs"]["text"], "xml_equations": out["obs"]["xml_text"][out["obs"]["xml_text"].find("<equation>"):][:700]}, limit=3)
-    for t in ("expr", "bool", "comp", "when", "decl-eq", "elsewhen", "attr-expr", "bool-attr"):
+    for t in ("expr", "bool", "comp", "comp2", "two-prefixes", "flow", "when", "decl-eq", "elsewhen", "attr-expr", "bool-attr"):
         if not by_tag.get(t):
             raise MachineryError("vacuous: no program with tag %s" % t)
     for o in ("generate", "well-formed", "component", "equation"):
